@@ -17,10 +17,12 @@ import (
 	"strings"
 	"sync"
 	"testing"
+	"time"
 
 	"github.com/nuts-foundation/go-did/did"
 	"github.com/nuts-foundation/nuts-node/audit"
 	nutsCrypto "github.com/nuts-foundation/nuts-node/crypto"
+	"github.com/nuts-foundation/nuts-node/crypto/hash"
 	"github.com/nuts-foundation/nuts-node/http/client"
 	"github.com/nuts-foundation/nuts-node/storage"
 	"github.com/nuts-foundation/nuts-node/storage/orm"
@@ -38,7 +40,12 @@ type c18LocalOp struct {
 	K     string `json:"k"`               // create | service | addvm | deactivate | resolve | resolve-foreign
 	S     int    `json:"s"`               // subject selector
 	Allow bool   `json:"allow,omitempty"` // resolve: AllowDeactivated
-	Meta  bool   `json:"meta,omitempty"`  // resolve: pass a (non-nil) ResolveMetadata even when Allow is false
+	Meta  bool   `json:"meta,omitempty"`  // resolve: pass a (non-nil, empty) ResolveMetadata even when nothing else is set
+	// resolve: ResolveTime. "" absent | before (creation) | at (version V exactly) | between (version V and the next) |
+	// at-last (exactly at the latest version, i.e. at the deactivation when there is one) | after-last (1 s later) | future
+	Time string `json:"time,omitempty"`
+	V    int    `json:"v,omitempty"`    // version selector for at/between (modulo the number of versions)
+	Also string `json:"also,omitempty"` // resolve: additionally set "hash" or "tx" (fields this resolver does not implement)
 }
 
 type c18LocalCase struct {
@@ -69,6 +76,13 @@ func c18GenLocal(t *rapid.T) c18LocalCase {
 		if op.K == "resolve" {
 			op.Allow = rapid.Bool().Draw(t, "allow")
 			op.Meta = rapid.Bool().Draw(t, "meta")
+			op.Time = rapid.SampledFrom([]string{"", "at-last", "after-last", "future", "between", "at", "before", ""}).Draw(t, "time")
+			if op.Time == "at" || op.Time == "between" {
+				op.V = rapid.IntRange(0, 7).Draw(t, "v")
+			}
+			if rapid.IntRange(0, 7).Draw(t, "also") == 0 {
+				op.Also = rapid.SampledFrom([]string{"hash", "tx"}).Draw(t, "alsokind")
+			}
 		}
 		c.Ops = append(c.Ops, op)
 	}
@@ -93,11 +107,64 @@ func c18LocalDB(tb testing.TB) *gorm.DB {
 	return c18DB
 }
 
+// c18Version is what the harness knows about one stored version of a managed document.
+type c18Version struct {
+	services    int
+	deactivated bool
+}
+
 type c18Subject struct {
 	name        string
 	dids        []did.DID
 	deactivated bool
 	services    int
+	versions    []c18Version // version v was written at logical time c18Base + v*c18Step
+}
+
+// Stored versions get a harness-owned clock (rows are edited after every write; the code stamps them with the wall clock in
+// whole seconds, which would make all versions of a case simultaneous): version v is written at c18Base + v*c18Step.
+const (
+	c18Base   = int64(1600000000) // 2020-09-13
+	c18Step   = int64(100)
+	c18Future = int64(4000000000) // 2096
+)
+
+// c18Restamp gives every stored version of the subject's documents its logical time and checks the version count.
+func c18Restamp(x *h.Ctx, db *gorm.DB, s *c18Subject) {
+	for _, id := range s.dids {
+		x.NoErr(db.Exec("UPDATE did_document_version SET updated_at = ? + version * ? WHERE did = ?", c18Base, c18Step, id.String()).Error, "restamp versions")
+		var n int64
+		x.NoErr(db.Table("did_document_version").Where("did = ?", id.String()).Count(&n).Error, "count versions")
+		if int(n) != len(s.versions) {
+			x.Fatalf("model has %d versions of %s, the database %d", len(s.versions), id, n)
+		}
+	}
+}
+
+// c18ResolveTime turns the op's time kind into a concrete time and tells which stored version it selects (-1 = none yet,
+// i.e. before the creation). No time = the latest version.
+func c18ResolveTime(op c18LocalOp, nver int) (t *time.Time, version int) {
+	at := func(sec int64) *time.Time { v := time.Unix(sec, 0).UTC(); return &v }
+	v := 0
+	if nver > 0 {
+		v = ((op.V % nver) + nver) % nver
+	}
+	last := nver - 1
+	switch op.Time {
+	case "before":
+		return at(c18Base - c18Step/2), -1
+	case "at":
+		return at(c18Base + int64(v)*c18Step), v
+	case "between":
+		return at(c18Base + int64(v)*c18Step + c18Step/2), v
+	case "at-last":
+		return at(c18Base + int64(last)*c18Step), last
+	case "after-last":
+		return at(c18Base + int64(last)*c18Step + 1), last
+	case "future":
+		return at(c18Future), last
+	}
+	return nil, last
 }
 
 func c18RunLocal(x *h.Ctx, c c18LocalCase) {
@@ -156,6 +223,8 @@ func c18RunLocal(x *h.Ctx, c c18LocalCase) {
 				x.Fatalf("create returned no documents")
 			}
 			subs[op.S] = s
+			s.versions = append(s.versions, c18Version{})
+			c18Restamp(x, db, s)
 		case "service":
 			if s == nil || s.deactivated {
 				continue
@@ -163,71 +232,129 @@ func c18RunLocal(x *h.Ctx, c c18LocalCase) {
 			_, err := mgr.CreateService(ctx, s.name, did.Service{Type: fmt.Sprintf("t%d", i), ServiceEndpoint: "https://example.com/x"})
 			x.NoErr(err, "create service")
 			s.services++
+			s.versions = append(s.versions, c18Version{services: s.services})
+			c18Restamp(x, db, s)
 		case "addvm":
 			if s == nil || s.deactivated {
 				continue
 			}
 			_, err := mgr.AddVerificationMethod(ctx, s.name, orm.AssertionKeyUsage())
 			x.NoErr(err, "add verification method")
+			s.versions = append(s.versions, c18Version{services: s.services})
+			c18Restamp(x, db, s)
 		case "deactivate":
 			if s == nil || s.deactivated {
 				continue
 			}
 			x.NoErr(mgr.Deactivate(ctx, s.name), "deactivate")
 			s.deactivated = true
+			s.versions = append(s.versions, c18Version{deactivated: true})
+			c18Restamp(x, db, s)
 		case "resolve":
 			if s == nil {
 				continue
 			}
+			rt, ver := c18ResolveTime(op, len(s.versions))
+			var md *resolver.ResolveMetadata
+			if op.Allow || op.Meta || rt != nil || op.Also != "" {
+				md = &resolver.ResolveMetadata{AllowDeactivated: op.Allow, ResolveTime: rt}
+				hsh := hash.SHA256Sum([]byte("c18"))
+				switch op.Also {
+				case "hash":
+					md.Hash = &hsh
+				case "tx":
+					md.SourceTransaction = &hsh
+				}
+			}
+			x.Classf("metadata:time=%s", map[bool]string{true: "absent", false: op.Time}[op.Time == ""])
+			if md == nil {
+				x.Class("metadata:nil")
+			}
+			what := fmt.Sprintf("allow=%v time=%s(v%d of %d) also=%s nil-metadata=%v", op.Allow, op.Time, ver, len(s.versions), op.Also, md == nil)
 			for _, id := range s.dids {
-				nw.Reset()
-				foreignBody = fmt.Sprintf(`{"@context":"https://www.w3.org/ns/did/v1","id":%q,"service":[{"id":"%s#leak","type":"from-the-web","serviceEndpoint":"https://evil.example"}]}`, id.String(), id.String())
-				var md *resolver.ResolveMetadata
-				if op.Allow || op.Meta {
-					md = &resolver.ResolveMetadata{AllowDeactivated: op.Allow}
-				}
-				doc, dmd, err := chain.Resolve(id, md)
-				if l := nw.Log(); len(l) > 0 {
-					x.Violate("local-net:request", "step %d: resolving the locally managed %s (deactivated=%v allow=%v) went to the network: %s", i, id, s.deactivated, op.Allow, l[0].URL)
-				}
-				switch {
-				case s.deactivated && !op.Allow:
-					sawDeactivatedResolve = true
-					if err == nil {
-						x.Violate("local-deactivated:resolved", "step %d: deactivated %s resolved without AllowDeactivated (metadata nil=%v)", i, id, md == nil)
-					} else if !errors.Is(err, resolver.ErrDeactivated) {
-						x.Violate("local-deactivated:wrong-error", "step %d: deactivated %s: error %v is not ErrDeactivated", i, id, err)
+				for _, via := range []string{"chain", "direct"} {
+					var rs resolver.DIDResolver = chain
+					if via == "direct" {
+						rs = didsubject.Resolver{DB: db}
+					}
+					nw.Reset()
+					foreignBody = fmt.Sprintf(`{"@context":"https://www.w3.org/ns/did/v1","id":%q,"controller":%q,"service":[{"id":"%s#leak","type":"from-the-web","serviceEndpoint":"https://evil.example"}]}`, id.String(), id.String(), id.String())
+					doc, dmd, err := rs.Resolve(id, md)
+					netLog := nw.Log()
+
+					// the clause that holds whatever else the metadata asks for: a deactivated document is never handed out
+					// unless the caller allows it
+					if err == nil && doc != nil && resolver.IsDeactivated(*doc) && !op.Allow {
+						sawDeactivatedResolve = true
+						x.Violate("local-deactivated:resolved", "step %d (%s): deactivated version of %s resolved without AllowDeactivated (%s)", i, via, id, what)
+						continue
 					}
 					if err != nil && (doc != nil || dmd != nil) {
-						x.Violate("local-result:doc-with-error", "step %d: %s: error %v together with a document", i, id, err)
+						x.Violate("local-result:doc-with-error", "step %d (%s): %s: error %v together with a document", i, via, id, err)
 					}
-				case s.deactivated && op.Allow:
-					sawDeactivatedResolve = true
-					if err != nil {
-						x.Violate("local-deactivated:allow-rejected", "step %d: deactivated %s with AllowDeactivated: %v", i, id, err)
+					if op.Also != "" {
+						// Hash / SourceTransaction are not implemented by this resolver: nothing more is demanded
+						x.Class("metadata:hash-or-tx(only-deactivation-clause-judged)")
 						continue
 					}
-					if doc == nil || doc.ID.String() != id.String() {
-						x.Violate("local-docid:differs", "step %d: %s resolved to a document with another id", i, id)
-					} else if !resolver.IsDeactivated(*doc) || dmd == nil || !dmd.Deactivated {
-						x.Violate("local-deactivated:not-marked", "step %d: deactivated %s resolved with AllowDeactivated but is not marked deactivated", i, id)
-					}
-				default:
-					sawActiveResolve = true
-					if err != nil {
-						x.Violate("local-active:rejected", "step %d: managed active %s does not resolve: %v", i, id, err)
+					if ver < 0 {
+						// requested time lies before the creation: no local version. Direct: ErrNotFound (resolver_test.go). Through the
+						// chain the DID is then treated like an unmanaged one; counted, not judged.
+						if via == "direct" && !errors.Is(err, resolver.ErrNotFound) {
+							x.Violate("local-time:before-creation-resolved", "step %d: %s at a time before its creation: %v, want ErrNotFound", i, id, err)
+						}
+						if via == "chain" && len(netLog) > 0 {
+							x.Class("observed:managed-did-before-creation-falls-through-to-web")
+						}
 						continue
 					}
-					if doc == nil || doc.ID.String() != id.String() {
-						x.Violate("local-docid:differs", "step %d: %s resolved to a document with another id", i, id)
-						continue
+					if len(netLog) > 0 {
+						x.Violate("local-net:request", "step %d (%s): resolving the locally managed %s went to the network: %s (%s)", i, via, id, netLog[0].URL, what)
 					}
-					if len(doc.Service) != s.services {
-						x.Violate("local-stale:services", "step %d: %s resolved with %d services, local history has %d", i, id, len(doc.Service), s.services)
-					}
-					for _, sv := range doc.Service {
-						if sv.Type == "from-the-web" {
-							x.Violate("local-net:web-document-returned", "step %d: %s resolved to the document served by the web", i, id)
+					want := s.versions[ver]
+					switch {
+					case want.deactivated && !op.Allow:
+						sawDeactivatedResolve = true
+						if op.Time != "" {
+							x.Class("resolved-deactivated-with-resolve-time")
+						}
+						if err == nil {
+							x.Violate("local-deactivated:resolved", "step %d (%s): %s is deactivated at the requested time but resolved without AllowDeactivated (%s)", i, via, id, what)
+						} else if !errors.Is(err, resolver.ErrDeactivated) {
+							x.Violate("local-deactivated:wrong-error", "step %d (%s): deactivated %s: error %v is not ErrDeactivated (%s)", i, via, id, err, what)
+						}
+					case want.deactivated && op.Allow:
+						sawDeactivatedResolve = true
+						if err != nil {
+							x.Violate("local-deactivated:allow-rejected", "step %d (%s): deactivated %s with AllowDeactivated: %v (%s)", i, via, id, err, what)
+							continue
+						}
+						if doc == nil || doc.ID.String() != id.String() {
+							x.Violate("local-docid:differs", "step %d (%s): %s resolved to a document with another id", i, via, id)
+						} else if !resolver.IsDeactivated(*doc) || dmd == nil || !dmd.Deactivated {
+							x.Violate("local-deactivated:not-marked", "step %d (%s): deactivated %s resolved with AllowDeactivated but is not marked deactivated (%s)", i, via, id, what)
+						}
+					default:
+						sawActiveResolve = true
+						if s.deactivated {
+							// an earlier, active version of a DID that was deactivated later: resolving it by time is legitimate
+							x.Class("resolved-earlier-active-version-of-deactivated-did")
+						}
+						if err != nil {
+							x.Violate("local-active:rejected", "step %d (%s): managed %s, active at the requested time, does not resolve: %v (%s)", i, via, id, err, what)
+							continue
+						}
+						if doc == nil || doc.ID.String() != id.String() {
+							x.Violate("local-docid:differs", "step %d (%s): %s resolved to a document with another id", i, via, id)
+							continue
+						}
+						if len(doc.Service) != want.services {
+							x.Violate("local-stale:services", "step %d (%s): %s resolved with %d services, version %d of the local history has %d (%s)", i, via, id, len(doc.Service), ver, want.services, what)
+						}
+						for _, sv := range doc.Service {
+							if sv.Type == "from-the-web" {
+								x.Violate("local-net:web-document-returned", "step %d (%s): %s resolved to the document served by the web", i, via, id)
+							}
 						}
 					}
 				}
